@@ -28,7 +28,7 @@ fn main() {
         std::process::exit(2)
     };
     silence_panics();
-    let findings = load_findings(&verif_dir);
+    let findings: Vec<Finding> = init_findings(&verif_dir).to_vec();
 
     if args[1] == "--replay" {
         let Some(file) = args.get(2) else { usage() };
@@ -42,6 +42,14 @@ fn main() {
     };
     let ctx = Ctx { id: prop.id, tier, seed, verif_dir };
     let start = Instant::now();
+    // watchdog: a run that exceeds its budget is an infrastructure problem (exit 2), never a violation
+    let budget: u64 = std::env::var("LC3V_WATCHDOG_SECS").ok().and_then(|s| s.parse().ok()).unwrap_or(tier.pick(1200, 14400));
+    let wid = prop.id;
+    std::thread::spawn(move || {
+        std::thread::sleep(std::time::Duration::from_secs(budget));
+        eprintln!("WATCHDOG: {wid} exceeded {budget}s; inconclusive (exit 2)");
+        std::process::exit(2);
+    });
 
     // 1. regression tier: committed replays
     let mut reg_run = 0u64;
